@@ -13,9 +13,10 @@ PROP = {'assumptions': ['the code is comparison-only: numbers are modelled as Nu
                  'as the code does (last entry wins, C16_legacy_last_wins)',
                  '"documented rules" = the rule list of the property statement read against the code\'s own error '
                  'messages: speed restrictions must be well-formed, sorted and have unique (start, end) bounds (they MAY '
-                 'overlap: the profile code of C02/C13 takes the minimum over overlapping restrictions and the shipped '
-                 'networks contain them); catenary sections must not overlap; the docs page rail-network.md itself only '
-                 'contains the link table, which the generator replays (family "docs")',
+                 'overlap: the crate\'s own fixture Vec::<SpeedLimit>::valid() = [0,10000]@20, [5000,10000]@10 is a nested '
+                 'pair that its unit tests require to validate, and the profile code of C02/C13 takes the minimum over '
+                 'overlapping restrictions); catenary sections must not overlap; the docs page rail-network.md itself '
+                 'only contains the link table, which the generator replays (family "docs")',
                  'text parsers are outside the model: serde_json writes NaN/inf as null and its default float parser is '
                  'not correctly rounded (1 ulp), so the JSON path is compared only when the text parses back to the same '
                  'network (counted as net.json.roundtrip_same / float_parse_drift / non_finite_not_representable); YAML '
